@@ -239,7 +239,7 @@ impl<Meta: ObjectMeta> Archive<Meta> {
 // u64::next_multiple_of: the least multiple of rhs that is >= self; panics if rhs == 0 or on overflow
 pub assume_specification [u64::next_multiple_of] (x: u64, rhs: u64) -> (r: u64)
     requires rhs != 0, x + rhs <= u64::MAX,
-    ensures r >= x, r - x < rhs, r % rhs == 0,
+    ensures r as int == ((x + rhs - 1) / (rhs as int)) * rhs,
 ;
 // impl<T> From<T> for Option<T> (used as `nonzero.into()` where an Option<NonZeroU64> is expected)
 pub assume_specification<T> [<Option<T> as From<T>>::from] (t: T) -> (r: Option<T>)
